@@ -16,3 +16,60 @@ class stream_satoshi_int:
         return (fdata(f) == old(fdata(f)) + compact_size(v), result is None)
 
     canaries = [("v <= 65535", "v < 65535"), ("v < 253", "v <= 253")]
+
+
+@contract("pycoin.satoshi.satoshi_int:parse_satoshi_int")
+class parse_satoshi_int:
+    props = ["C07", "C16"]
+    sig = dict(f=RFile(), v=Const(None))
+    returns = Int()
+    assigns = ["f"]
+
+    def requires(f, v):
+        return v is None and cs_ok(fdata(f), fpos(f))
+
+    def ensures_value(f, v, result):
+        return (result == cs_value(old(fdata(f)), old(fpos(f))),
+                fpos(f) == old(fpos(f)) + cs_len(old(fdata(f))[old(fpos(f))]),
+                fdata(f) == old(fdata(f)), 0 <= result, result < 2 ** 64)
+
+    canaries = [("v == 254", "v == 255"), ("f.read(2)", "f.read(4)")]
+
+
+@lemma(sig=dict(v=Int(0, 2 ** 64 - 1), pre=Bytes(), rest=Bytes()))
+def cs_roundtrip(v, pre, rest):
+    """decoding the canonical encoding of v (anywhere in a buffer) gives v and consumes exactly it"""
+    d = pre + compact_size(v) + rest
+    p = len(pre)
+    return (cs_ok(d, p), cs_value(d, p) == v, cs_len(d[p]) == len(compact_size(v)))
+
+
+@contract("pycoin.satoshi.satoshi_string:stream_satoshi_string")
+class stream_satoshi_string:
+    props = ["C07", "C16"]
+    sig = dict(f=WFile(), v=Bytes())
+    assigns = ["f"]
+
+    def requires(f, v):
+        return len(v) < 2 ** 64
+
+    def ensures_wire(f, v, result):
+        return fdata(f) == old(fdata(f)) + varstr(v)
+
+
+@contract("pycoin.satoshi.satoshi_string:parse_satoshi_string")
+class parse_satoshi_string:
+    props = ["C07", "C16"]
+    sig = dict(f=RFile())
+    returns = Bytes()
+    assigns = ["f"]
+
+    def requires(f):
+        return cs_ok(fdata(f), fpos(f))
+
+    def ensures_value(f, result):
+        d = old(fdata(f))
+        p = old(fpos(f))
+        n = cs_value(d, p)
+        start = p + cs_len(d[p])
+        return (result == d[start:start + n], fpos(f) == start + len(result), fdata(f) == d)
